@@ -548,3 +548,43 @@ Proof.
   exists [(EThis [1%N], false)], false, true, true, [1%N].
   split; [reflexivity|discriminate].
 Qed.
+
+(* ---- concurrentPath: operators whose result depends on the positions of the
+        values or on the whole stream end the concurrent path and require the
+        scan order (a Slicer) ---- *)
+Definition positional_op (o : op) : bool :=
+  match o with
+  | OHead _ | OTail _ | OUniq _ | OFuse | OFork _ | OJoin _ _ _ _ _ | OOutput _ => true
+  | _ => false
+  end.
+
+Theorem positional_requires_order o r k sk :
+  positional_op o = true -> concurrent_path (o :: r) k sk = (k, sk, true, true).
+Proof. destruct o; simpl; intros H; try discriminate; reflexivity. Qed.
+
+(* ... also behind any prefix of operators that keep a known order: the path
+   ends at the first positional operator with orderRequired = true. *)
+Theorem order_required_at_first_positional pre o r : forall k sk,
+  positional_op o = true ->
+  let '(_, _, required, _) := concurrent_path (pre ++ o :: r) k sk in
+  required = true \/ exists p, In p pre /\ (exists l ks a d pi po, p = OSummarize l ks a d pi po) \/
+                                  In p pre /\ (exists a nf rv, p = OSort a nf rv).
+Proof.
+  induction pre as [|p pre IH]; intros k sk Hp.
+  - simpl app. rewrite (positional_requires_order o r k sk Hp). left; reflexivity.
+  - simpl app.
+    destruct p as [sk0 f|e|a|a|a|a|a nf rv|n|n| |c| |i|l ks a d pi po|paths|e d| |i lk rk ld rd|i b|i|i];
+      try (simpl; left; reflexivity);
+      try (simpl concurrent_path;
+           match goal with |- context [if ?c then _ else _] => destruct c end;
+           [left; reflexivity|];
+           match goal with |- context [concurrent_path (pre ++ o :: r) ?k' ?sk'] =>
+             specialize (IH k' sk' Hp); destruct (concurrent_path (pre ++ o :: r) k' sk') as [[[? ?] rq] ?] end;
+           destruct IH as [IH|[q IH]]; [left; exact IH|right; exists q; destruct IH as [[Hin Hq]|[Hin Hq]]; [left|right]; (split; [right; exact Hin|exact Hq])]).
+    + (* sort *)
+      simpl concurrent_path. destruct (sort_keys_of_sort a rv);
+        right; eexists; right; (split; [left; reflexivity|repeat eexists]).
+    + (* summarize *)
+      simpl concurrent_path. destruct (is_key_of_summarize ks sk); [left; reflexivity|].
+      right; eexists; left; (split; [left; reflexivity|repeat eexists]).
+Qed.
